@@ -50,6 +50,8 @@ func init() {
 				Doc: "'The methods routable at that URL': the computation behind an unconfigured AllowedMethods accepts a route exactly as the router does (route expression matched against the service remainder, final group empty or '/') and for the service the router would select (same obligations as C17.d)."},
 			{ID: "C09.h", Template: "T-EFFECT", Required: true, Run: ruleC17e,
 				Doc: "The computed methods are a function of this request and the live route tables: no memo on shared state (same obligations as C17.e). Route/RemoveRoute do not go through the container, so a cache keyed by URL grants methods that are no longer routable."},
+			{ID: "C09.j", Template: "T-ONCE", Required: true, Run: ruleC06f,
+				Doc: "A preflight for a URL no route serves is still answered by the CORS filter: on every path of the routing-failure branch the container filters run (same obligations as C06.f). An error written directly 'because there is no WebService to ask' answers the preflight with a bare 404 and strips the CORS headers from the 404 of an actual request."},
 			{ID: "C09.i", Template: "T-SIBLING", Required: true, Run: ruleLiteralEncoding,
 				Doc: "'The methods routable at that URL': the computation matches the compiled expressions against the same text the routers use (URL.Path, not its escaped form) - same obligations as C02.l."},
 			{ID: "C09.e", Template: "T-PROV", Required: true, Run: ruleC09e,
